@@ -6,12 +6,15 @@
 package stack
 
 import (
+	"encoding/json"
+	"hash/fnv"
 	"bufio"
 	"bytes"
 	"context"
 	"crypto/sha256"
 	"encoding/hex"
 	"fmt"
+	"github.com/thushan/olla/internal/zz_verif/vlib"
 	"io"
 	"net"
 	"net/http"
@@ -487,9 +490,87 @@ type Opts struct {
 	// Load: write the configuration out as YAML and read it back through config.Load (the call main.go makes),
 	// so that the file loader, its defaulting and its validation are part of what is exercised
 	Load bool
+	// Vary (non-zero): a seed for settings that no property mentions and that must therefore be inert for every check —
+	// applied after the defaults and before Mutate, so a harness's own settings always win.  The same number gives the
+	// same settings, so a scenario that records it replays exactly.
+	Vary uint64
+}
+
+// VaryFor: a Vary seed that depends only on the run's seed and on what identifies the scenario (so a replay of the
+// scenario gets the same settings); zero — the defaults — for half of the scenarios.
+func VaryFor(parts ...any) uint64 {
+	h := fnv.New64a()
+	fmt.Fprint(h, vlib.Seed(), "|")
+	for _, p := range parts {
+		fmt.Fprint(h, p, "|")
+	}
+	v := h.Sum64()
+	if v%2 == 0 {
+		return 0
+	}
+	return v
+}
+
+// VaryForJSON: VaryFor keyed by the JSON rendering of a scenario description.
+func VaryForJSON(tag string, v any) uint64 {
+	b, _ := json.Marshal(v)
+	return VaryFor(tag, string(b))
+}
+
+// applyVary: valid non-default values for knobs the properties do not mention (see DESIGN 11.4, round 4).
+func applyVary(cfg *config.Config, seed uint64) (tmp []string) {
+	r := vlib.NewRng(seed)
+	cfg.Server.RequestLogging = r.Chance(3, 4)
+	if r.Chance(1, 2) { // limits so generous that no scenario reaches them, instead of no limits
+		cfg.Server.RateLimits.GlobalRequestsPerMinute = 60_000_000
+		cfg.Server.RateLimits.PerIPRequestsPerMinute = 60_000_000
+		cfg.Server.RateLimits.HealthRequestsPerMinute = 60_000_000
+		cfg.Server.RateLimits.BurstSize = 1_000_000
+	}
+	if r.Chance(1, 3) {
+		cfg.Server.RequestLimits.MaxBodySize = 1 << 30
+	}
+	if r.Chance(1, 3) {
+		cfg.Server.ReadTimeout = 5 * time.Minute
+	}
+	if r.Chance(1, 3) {
+		cfg.Server.WriteTimeout = 10 * time.Minute
+	}
+	if r.Chance(1, 3) {
+		cfg.Server.IdleTimeout = 10 * time.Minute
+	}
+	if r.Chance(1, 2) {
+		cfg.Proxy.StreamBufferSize = vlib.Pick(r, []int{1024, 2048, 4096, 16384, 65536})
+	}
+	if r.Chance(1, 2) { // deprecated and documented as unused
+		cfg.Proxy.MaxRetries = vlib.Pick(r, []int{0, 1, 2, 10})
+		cfg.Proxy.RetryBackoff = vlib.Pick(r, []time.Duration{0, time.Second, 30 * time.Second})
+	}
+	if r.Chance(1, 2) {
+		cfg.Discovery.ModelDiscovery.ConcurrentWorkers = vlib.Pick(r, []int{1, 2, 16})
+	}
+	if r.Chance(1, 3) {
+		cfg.ModelRegistry.Unification.StaleThreshold = time.Hour
+		cfg.ModelRegistry.Unification.CleanupInterval = time.Minute
+	}
+	if r.Chance(1, 3) {
+		cfg.ModelRegistry.Unification.CacheTTL = time.Minute
+	}
+	if r.Chance(1, 4) {
+		if dir, err := os.MkdirTemp(vlib.OutDir(), "inspector"); err == nil {
+			cfg.Translators.Anthropic.Inspector = config.InspectorConfig{Enabled: true, OutputDir: dir, SessionHeader: "X-Session-ID"}
+			tmp = append(tmp, dir)
+		}
+	}
+	if r.Chance(1, 3) {
+		cfg.Translators.Anthropic.MaxMessageSize = 50 << 20
+	}
+	cfg.Engineering.ShowNerdStats = r.Bool()
+	return tmp
 }
 
 type Stack struct {
+	tmpDirs []string
 	Cfg     *config.Config
 	Manager *services.ServiceManager
 	Addr    string
@@ -630,6 +711,18 @@ func start1(o Opts) (*Stack, error) {
 			HealthCheckURL: "/health", ModelURL: "/v1/models", CheckInterval: iv, CheckTimeout: to, PreservePath: e.Preserve,
 		})
 	}
+	var tmpDirs []string
+	if o.Vary != 0 {
+		tmpDirs = applyVary(cfg, o.Vary)
+	}
+	ok := false
+	defer func() {
+		if !ok {
+			for _, d := range tmpDirs {
+				os.RemoveAll(d)
+			}
+		}
+	}()
 	if o.Mutate != nil {
 		o.Mutate(cfg)
 	}
@@ -677,7 +770,7 @@ func start1(o Opts) (*Stack, error) {
 		cancel()
 		return nil, err
 	}
-	s := &Stack{Cfg: cfg, Manager: mgr, Addr: fmt.Sprintf("127.0.0.1:%d", cfg.Server.Port), cancel: cancel, EPs: o.EPs}
+	s := &Stack{Cfg: cfg, Manager: mgr, Addr: fmt.Sprintf("127.0.0.1:%d", cfg.Server.Port), cancel: cancel, EPs: o.EPs, tmpDirs: tmpDirs}
 	reg := mgr.GetRegistry()
 	if d, err := reg.GetDiscovery(); err == nil {
 		s.Disc = d
@@ -694,6 +787,7 @@ func start1(o Opts) (*Stack, error) {
 		c, err := net.DialTimeout("tcp", s.Addr, 200*time.Millisecond)
 		if err == nil {
 			c.Close()
+			ok = true
 			return s, nil
 		}
 		time.Sleep(10 * time.Millisecond)
@@ -709,6 +803,9 @@ func (s *Stack) Stop() {
 		s.Manager.Stop(ctx)
 	}
 	s.cancel()
+	for _, d := range s.tmpDirs {
+		os.RemoveAll(d)
+	}
 }
 
 // Endpoint returns the repository's current record for the endpoint named name.
